@@ -349,6 +349,10 @@ func finish(t *testing.T, p *PropSpec, reports []*mc.Report, errs []string, wall
 	if p.Extra != nil {
 		ev, cov := p.Extra()
 		extraCov = cov
+		if l, ok := cov["internal"].([]string); ok {
+			internal = append(internal, l...)
+			delete(cov, "internal")
+		}
 		for _, v := range ev {
 			k := v.Property + "|" + v.Key
 			if !vseen[k] {
